@@ -129,6 +129,12 @@ class Net(object):
             if verdict == "drop":
                 self.stats.inc("filtered_" + direction)
                 return
+            if isinstance(verdict, tuple) and verdict[0] == "replace":
+                # an active attacker on the path substitutes the datagram(s)
+                self.stats.inc("replaced_" + direction)
+                for d, origin in verdict[1]:
+                    self._push(now + 0.004, direction, addr, d, origin)
+                return
             if isinstance(verdict, list):
                 for i, d in enumerate(verdict):
                     self._push(now + d, direction, addr, datagram, "honest" if i == 0 else "dup")
@@ -290,6 +296,7 @@ class MockSock(object):
     def recvfrom(self, n):
         datagram, origin = self.fifo.pop(0)
         self.client.last_origin = origin
+        self.client.last_datagram = datagram
         self.client.world.counters.inc("client_datagrams_read")
         return datagram[:n], SERVER_ADDR
 
@@ -320,6 +327,7 @@ class ClientEnd(object):
         self.active = True
         self.last_origin = None
         self.updates_per_step = 1    # application frames per server tick
+        self.last_datagram = None
 
     @property
     def conn(self):
@@ -587,6 +595,12 @@ class World(object):
         self.clients.append(c)
         self.clients_by_addr[addr] = c
         return c
+
+    def remove_client(self, c):
+        c.active = False
+        if c in self.clients:
+            self.clients.remove(c)
+        self.clients_by_addr.pop(c.addr, None)
 
     def server_conn(self, addr):
         return self.ctxt.connections.get(addr) or self.ctxt.temp_connections.get(addr)
